@@ -422,7 +422,7 @@ func c19Run(p *c19Script) (*c19Result, *vx.Outcome) {
 		s.Feed("PING :sync")
 		pong := false
 		for _, l := range s.WireSince(n) {
-			if l == "PONG :sync" {
+			if NormLine(l) == "PONG :sync" {
 				pong = true
 			}
 		}
